@@ -63,6 +63,45 @@ def r13_6(chk, facts):
         if not problems: chk.ok('R13.6', site, {'class': key, 'kind': kind, 'operator': op})
         else: chk.fail('R13.6', site, f['file'], nd.line, '%s: %s' % (key, '; '.join(problems)), {'kind': kind}, f['q'])
 
+def r13_7(chk, facts):
+    """operator_table::precedence_level / is_right_associative evaluated for every operator_kind."""
+    from .. import peval as P
+    chk.rule('R13.7', 'operator table: precedence_level(kind) is ordered or > and > equality >= ordering comparators > projections >= not (a lower '
+                      'level binds tighter), all members of one class share a level, and only not/projection are right-associative', floor=10)
+    en = U.enum_by_suffix(facts, 'jmespath::operator_kind')
+    names = U.enum_value_names(en)
+    byname = {v: k for k, v in names.items()}
+    res = {}
+    for fname in ('precedence_level', 'is_right_associative'):
+        fns = [f for f in facts.functions if f['n'] == fname and 'operator_table' in (f.get('cls') or '') and f.get('body') is not None and not f.get('dep')]
+        chk.require(fns, 'operator_table::%s not found' % fname)
+        fn = fns[0]; chk.analysed(fn)
+        for v, nm in sorted(names.items()):
+            pe = P.PEval(facts, fn, max_depth=0)
+            pe.exec_body(fn, {fn['params'][0]['id']: v})
+            rets = [e.extra.get('value') for e in pe.effects if e.kind == 'return' and not e.guards]
+            res.setdefault(fname, {})[nm] = rets[0] if rets else None
+    prec = res['precedence_level']; ra = res['is_right_associative']
+    classes = [('or_op',), ('and_op',), ('eq_op', 'ne_op'), ('lt_op', 'lte_op', 'gt_op', 'gte_op'), ('projection_op', 'flatten_projection_op'), ('not_op',)]
+    file = 'include/jsoncons_ext/jmespath/jmespath.hpp'
+    levels = []
+    for cl in classes:
+        vals = {prec.get(c) for c in cl}
+        site = '%s operator_table precedence %s' % (file, '/'.join(cl))
+        if len(vals) == 1 and None not in vals: chk.ok('R13.7', site, {'level': list(vals)[0]}); levels.append(list(vals)[0])
+        else: chk.fail('R13.7', site, file, 57, 'operators of one precedence class have levels %s' % {c: prec.get(c) for c in cl}, None); levels.append(None)
+    site = '%s operator_table precedence order' % file
+    l = levels
+    ok = None not in l and l[0] > l[1] > l[2] >= l[3] > l[4] >= l[5]
+    if ok: chk.ok('R13.7', site, {'levels': l})
+    else: chk.fail('R13.7', site, file, 57, 'precedence levels or=%s and=%s equality=%s ordering=%s projection=%s not=%s are not ordered or > and > equality >= ordering > projection >= not' % tuple(l), None)
+    for nm in sorted(byname):
+        want = nm in ('not_op', 'projection_op')
+        site = '%s operator_table associativity %s' % (file, nm)
+        if nm not in ra: continue
+        if bool(ra[nm]) == want: chk.ok('R13.7', site, None)
+        else: chk.fail('R13.7', site, file, 57, 'is_right_associative(%s) is %s' % (nm, ra[nm]), None)
+
 def run(chk, tier, only_rule=None):
     chk.explanation = EXPLANATION
     chk.not_decided = NOT_DECIDED
@@ -250,6 +289,7 @@ def run(chk, tier, only_rule=None):
     # ---- shared slice clamp rule
     from . import c05
     r13_6(chk, facts)
+    r13_7(chk, facts)
     c05.r05_5(chk, tier)
     from . import c12
     c12.r12_3(chk, tier, units=('jmespath',))
